@@ -1,11 +1,350 @@
 package sim
 
-// UDP simulation (filled in with the RTSP/GB28181 stage).
+// Simulated UDP. lal's only UDP path is naza's nazanet.UdpConnection; the build overlay substitutes a copy of
+// that package whose sockets are ZzUDPBackend values created here (see /verif/modoverlay). Datagrams sent by
+// actors queue at the destination socket and are handed to lal's reader one at a time by a driver action, so
+// the relative order of deliveries on different sockets is a seeded scheduling decision; loss, duplication and
+// reordering are applied by the sending actor from the plan (so that they are part of the replay file and are
+// minimised with it). Every datagram lal writes parks like a TCP write and is then routed to the actor that
+// owns the destination address.
 
-type UDPSock struct{}
+import (
+	"fmt"
+	"hash/fnv"
+	"net"
+	"sort"
+	"sync"
+	"time"
 
-type udpAction struct{}
+	"github.com/q191201771/naza/pkg/nazanet"
+)
 
-func (k *Kernel) udpActions() []action  { return nil }
-func (k *Kernel) applyUDP(a *udpAction) {}
-func (k *Kernel) collectUDP()           {}
+type Datagram struct {
+	B    []byte
+	From net.UDPAddr
+	To   net.UDPAddr
+}
+
+type UDPSock struct {
+	k    *Kernel
+	port int
+	name string
+
+	mu       sync.Mutex
+	cond     *sync.Cond
+	inbox    []Datagram // sent by actors, not yet delivered
+	ready    []Datagram // delivered, not yet read by lal
+	out      []Datagram // written by lal, not yet collected
+	closed   bool
+	reading  bool
+	deadline time.Time
+	dlTimer  *time.Timer
+	dead     bool
+
+	TotalIn, TotalRead, TotalOut int
+}
+
+type udpAction struct {
+	sock *UDPSock
+}
+
+// UDPHandler receives datagrams lal sends to an address an actor owns.
+type UDPHandler func(d Datagram)
+
+type udpState struct {
+	socks    map[int]*UDPSock
+	order    []*UDPSock
+	linger   []*UDPSock            // closed sockets whose last writes are not collected yet
+	handlers map[string]UDPHandler // "host:port" -> actor
+	Dropped  int                   // datagrams to unbound ports / unowned addresses
+}
+
+func (k *Kernel) udp() *udpState {
+	if k.udpSt == nil {
+		k.udpSt = &udpState{socks: map[int]*UDPSock{}, handlers: map[string]UDPHandler{}}
+	}
+	return k.udpSt
+}
+
+func (k *Kernel) installUDP() {
+	nazanet.ZzListenUDP = func(addr *net.UDPAddr) (nazanet.ZzUDPBackend, error) {
+		return k.listenUDP(addr)
+	}
+}
+
+func (k *Kernel) listenUDP(addr *net.UDPAddr) (*UDPSock, error) {
+	k.mu.Lock()
+	defer k.mu.Unlock()
+	u := k.udp()
+	port := addr.Port
+	if port == 0 {
+		port = 40000
+		for u.socks[port] != nil {
+			port++
+		}
+	}
+	if s := u.socks[port]; s != nil {
+		return nil, &net.OpError{Op: "listen", Net: "udp", Err: fmt.Errorf("bind: address already in use")}
+	}
+	if k.udpBusyPorts[port] {
+		return nil, &net.OpError{Op: "listen", Net: "udp", Err: fmt.Errorf("bind: address already in use")}
+	}
+	s := &UDPSock{k: k, port: port, name: fmt.Sprintf("udp:%d", port)}
+	s.cond = sync.NewCond(&s.mu)
+	u.socks[port] = s
+	u.order = append(u.order, s)
+	return s, nil
+}
+
+// UDPOccupy makes a port unavailable to lal (as if another process had bound it).
+func (k *Kernel) UDPOccupy(port int) {
+	k.mu.Lock()
+	if k.udpBusyPorts == nil {
+		k.udpBusyPorts = map[int]bool{}
+	}
+	k.udpBusyPorts[port] = true
+	k.mu.Unlock()
+}
+
+// UDPBound reports whether lal has a socket bound on port.
+func (k *Kernel) UDPBound(port int) bool {
+	k.mu.Lock()
+	defer k.mu.Unlock()
+	return k.udp().socks[port] != nil
+}
+
+// UDPBoundPorts lists lal's bound UDP ports in ascending order.
+func (k *Kernel) UDPBoundPorts() []int {
+	k.mu.Lock()
+	defer k.mu.Unlock()
+	var ps []int
+	for p := range k.udp().socks {
+		ps = append(ps, p)
+	}
+	sort.Ints(ps)
+	return ps
+}
+
+// UDPSend queues a datagram from an actor's address to lal's port. It reports false when nothing is bound there.
+func (k *Kernel) UDPSend(from net.UDPAddr, port int, b []byte) bool {
+	k.mu.Lock()
+	s := k.udp().socks[port]
+	if s == nil {
+		k.udp().Dropped++
+	}
+	k.mu.Unlock()
+	if s == nil {
+		return false
+	}
+	s.mu.Lock()
+	s.inbox = append(s.inbox, Datagram{B: append([]byte(nil), b...), From: from, To: net.UDPAddr{IP: net.IPv4(127, 0, 0, 1), Port: port}})
+	s.TotalIn++
+	s.mu.Unlock()
+	return true
+}
+
+// UDPHandle registers the actor that owns host:port.
+func (k *Kernel) UDPHandle(hostport string, h UDPHandler) {
+	k.mu.Lock()
+	k.udp().handlers[hostport] = h
+	k.mu.Unlock()
+}
+
+// UDPPending reports how many datagrams sent to port have not been read by lal yet.
+func (k *Kernel) UDPPending(port int) int {
+	k.mu.Lock()
+	s := k.udp().socks[port]
+	k.mu.Unlock()
+	if s == nil {
+		return 0
+	}
+	s.mu.Lock()
+	defer s.mu.Unlock()
+	return len(s.inbox) + len(s.ready)
+}
+
+func (k *Kernel) udpActions() []action {
+	// called with k.mu held
+	if k.udpSt == nil {
+		return nil
+	}
+	var acts []action
+	socks := append([]*UDPSock(nil), k.udpSt.order...)
+	sort.SliceStable(socks, func(i, j int) bool { return socks[i].port < socks[j].port })
+	for _, s := range socks {
+		if s.dead {
+			continue
+		}
+		s.mu.Lock()
+		if len(s.inbox) > 0 && !s.closed {
+			acts = append(acts, action{kind: "udp", udp: &udpAction{sock: s}, key: "udp " + s.name})
+		}
+		s.mu.Unlock()
+	}
+	return acts
+}
+
+func (k *Kernel) applyUDP(a *udpAction) {
+	s := a.sock
+	s.mu.Lock()
+	if len(s.inbox) > 0 {
+		s.ready = append(s.ready, s.inbox[0])
+		s.inbox = s.inbox[1:]
+		s.cond.Broadcast()
+	}
+	s.mu.Unlock()
+	k.Stats.Deliveries++
+	k.lastGid = 0
+}
+
+func (k *Kernel) collectUDP() {
+	if k.udpSt == nil {
+		return
+	}
+	k.mu.Lock()
+	socks := append([]*UDPSock(nil), k.udpSt.order...)
+	socks = append(socks, k.udpSt.linger...)
+	k.udpSt.linger = nil
+	k.mu.Unlock()
+	sort.SliceStable(socks, func(i, j int) bool { return socks[i].port < socks[j].port })
+	for _, s := range socks {
+		s.mu.Lock()
+		out := s.out
+		s.out = nil
+		s.mu.Unlock()
+		for _, d := range out {
+			h := fnv.New64a()
+			h.Write(d.B)
+			k.mixDigest(&k.digest, fmt.Sprintf("uout %s>%s %d %x", s.name, d.To.String(), len(d.B), h.Sum64()))
+			if k.TraceOn {
+				k.trace = append(k.trace, fmt.Sprintf("  uout %s>%s %d %x", s.name, d.To.String(), len(d.B), h.Sum64()))
+			}
+			k.Stats.BytesOut += int64(len(d.B))
+			k.mu.Lock()
+			hd := k.udpSt.handlers[d.To.String()]
+			if hd == nil {
+				k.udpSt.Dropped++
+			}
+			k.mu.Unlock()
+			if hd != nil {
+				hd(d)
+			}
+		}
+	}
+}
+
+func (k *Kernel) crashUDP() {
+	// with k.mu held
+	if k.udpSt == nil {
+		return
+	}
+	for _, s := range k.udpSt.order {
+		s.dead = true
+	}
+	k.udpSt.socks = map[int]*UDPSock{}
+	k.udpSt.order = nil
+}
+
+// ---- nazanet.ZzUDPBackend ----------------------------------------------------------------------------------------------------
+
+var errUDPClosed = &net.OpError{Op: "read", Net: "udp", Err: fmt.Errorf("use of closed network connection")}
+
+func (s *UDPSock) ReadFromUDP(b []byte) (int, *net.UDPAddr, error) {
+	s.k.nameGoroutine(s.name)
+	s.mu.Lock()
+	defer s.mu.Unlock()
+	for {
+		if s.closed {
+			return 0, nil, errUDPClosed
+		}
+		if len(s.ready) > 0 {
+			d := s.ready[0]
+			s.ready = s.ready[1:]
+			n := copy(b, d.B) // excess bytes of a datagram are discarded, as recvfrom does
+			s.TotalRead++
+			s.k.Stats.BytesIn += int64(n)
+			from := d.From
+			return n, &from, nil
+		}
+		if !s.deadline.IsZero() && !time.Now().Before(s.deadline) {
+			return 0, nil, &net.OpError{Op: "read", Net: "udp", Err: timeoutError{}}
+		}
+		s.cond.Wait()
+	}
+}
+
+func (s *UDPSock) WriteToUDP(b []byte, addr *net.UDPAddr) (int, error) {
+	s.mu.Lock()
+	closed := s.closed
+	s.mu.Unlock()
+	if closed {
+		return 0, &net.OpError{Op: "write", Net: "udp", Err: fmt.Errorf("use of closed network connection")}
+	}
+	if addr == nil {
+		return 0, &net.OpError{Op: "write", Net: "udp", Err: fmt.Errorf("missing address")}
+	}
+	s.k.parkUDPWrite(s)
+	s.mu.Lock()
+	defer s.mu.Unlock()
+	if s.closed {
+		return 0, &net.OpError{Op: "write", Net: "udp", Err: fmt.Errorf("use of closed network connection")}
+	}
+	to := *addr
+	if to.IP == nil || to.IP.IsUnspecified() {
+		to.IP = net.IPv4(127, 0, 0, 1)
+	}
+	s.out = append(s.out, Datagram{B: append([]byte(nil), b...), From: net.UDPAddr{IP: net.IPv4(127, 0, 0, 1), Port: s.port}, To: to})
+	s.TotalOut++
+	return len(b), nil
+}
+
+func (s *UDPSock) Close() error {
+	s.mu.Lock()
+	if s.closed {
+		s.mu.Unlock()
+		return &net.OpError{Op: "close", Net: "udp", Err: fmt.Errorf("use of closed network connection")}
+	}
+	s.closed = true
+	s.cond.Broadcast()
+	s.mu.Unlock()
+	k := s.k
+	k.mu.Lock()
+	if u := k.udpSt; u != nil && u.socks[s.port] == s {
+		delete(u.socks, s.port)
+		for i, x := range u.order {
+			if x == s {
+				u.order = append(u.order[:i:i], u.order[i+1:]...)
+				u.linger = append(u.linger, s)
+				break
+			}
+		}
+	}
+	k.mu.Unlock()
+	return nil
+}
+
+func (s *UDPSock) LocalAddr() net.Addr {
+	return &net.UDPAddr{IP: net.IPv4zero, Port: s.port}
+}
+
+func (s *UDPSock) SetReadDeadline(t time.Time) error {
+	s.mu.Lock()
+	defer s.mu.Unlock()
+	if s.dlTimer != nil {
+		s.dlTimer.Stop()
+		s.dlTimer = nil
+	}
+	s.deadline = t
+	if !t.IsZero() {
+		d := time.Until(t)
+		if d < 0 {
+			d = 0
+		}
+		s.dlTimer = time.AfterFunc(d, func() {
+			s.mu.Lock()
+			s.cond.Broadcast()
+			s.mu.Unlock()
+		})
+	}
+	return nil
+}
